@@ -115,7 +115,7 @@ Definition back_sum (id : limid) (tr : list ev) : Z := fold_right (fun e a => ba
 
 Definition all_len (c : option nat) (e : ev) : Z :=
   match e with
-  | EPull c' _ _ bytes => if match c with None => true | Some c0 => Nat.eqb c' c0 end then Z.of_nat (length bytes) else 0
+  | EPull c' _ _ bytes _ => if match c with None => true | Some c0 => Nat.eqb c' c0 end then Z.of_nat (length bytes) else 0
   | _ => 0
   end.
 Definition all_pulled (c : option nat) (tr : list ev) : Z := fold_right (fun e a => all_len c e + a) 0 tr.
@@ -367,7 +367,7 @@ Proof.
         - cbn in Hc. apply Nat.eqb_eq in Hc. subst c0. cbn in Hlim. rewrite Hlim in E2. unfold lim_phase in E2.
           destruct (wait_n L (wlocal w c) t2 batch) as [s r0]. inversion E2; subst.
           rewrite res_sum_app, back_ev_res. cbn. rewrite Nat.eqb_refl. lia. }
-      assert (Hsel : all_len (sel id) (EPull c t3 batch bytes) = if concerns id c then Z.of_nat (length bytes) else 0).
+      assert (Hsel : all_len (sel id) (EPull c t3 batch bytes (oerr o)) = if concerns id c then Z.of_nat (length bytes) else 0).
       { destruct id; cbn; reflexivity. }
       unfold WI. rewrite !res_sum_app, !back_sum_app, !all_pulled_app.
       cbn [res_sum back_sum all_pulled fold_right res_n back_n]. rewrite Hall1, Hall2, Hsel. fold R0 J0.
@@ -376,18 +376,18 @@ Proof.
       split; [exact A2|split; [unfold R2; lia|split; [unfold J2; lia|split]]].
       * unfold R2. destruct (concerns id c) eqn:Ec; [specialize (Hres eq_refl)|]; lia.
       * intros T HT. rewrite !pulled_app, Hp1, Hp2. cbn [pulled fold_right].
-        pose proof (pull_len_le (sel id) T (EPull c t3 batch bytes)) as Hpl. rewrite Hsel in Hpl.
+        pose proof (pull_len_le (sel id) T (EPull c t3 batch bytes (oerr o))) as Hpl. rewrite Hsel in Hpl.
         specialize (Keep T HT _ HJ2).
         replace (J0 + (back_sum id e1 + back_sum id e2)) with J2 in Keep by (unfold J2; lia).
         destruct (Z.leb_spec t3 T) as [HtT|HtT].
         -- destruct (concerns id c) eqn:Ec; [|lia].
            specialize (Hres eq_refl). specialize (C2 d2 eq_refl eq_refl).
            pose proof (pulled_le_all (sel id) T tr) as Hpa.
-           assert (Hsum : pulled (sel id) T tr + (pull_len (sel id) T (EPull c t3 batch bytes) + 0) <= R2) by (unfold R2, R0; lia).
+           assert (Hsum : pulled (sel id) T tr + (pull_len (sel id) T (EPull c t3 batch bytes (oerr o)) + 0) <= R2) by (unfold R2, R0; lia).
            apply (mul_bound (unit L)) in Hsum; [|exact HU].
            assert (lp L * (t2 + d2 - t0 + 1) <= lp L * (T - t0 + 1)) by (apply Z.mul_le_mono_nonneg_l; unfold t3 in HtT; lia).
            lia.
-        -- assert (pull_len (sel id) T (EPull c t3 batch bytes) = 0) as ->.
+        -- assert (pull_len (sel id) T (EPull c t3 batch bytes (oerr o)) = 0) as ->.
            { cbn. destruct (Z.leb_spec t3 T); [lia|reflexivity]. }
            lia.
 Qed.
@@ -530,21 +530,21 @@ Proof.
   - destruct r; cbn in Hin; try tauto; destruct Hin as [<-|[]]; right; eauto.
 Qed.
 
-Lemma read_step_pull h t1 w o w' e c t b bs :
-  handler_ok h -> op_ok o -> read_step h t1 w o = (w', e) -> In (EPull c t b bs) e ->
+Lemma read_step_pull h t1 w o w' e c t b bs er :
+  handler_ok h -> op_ok o -> read_step h t1 w o = (w', e) -> In (EPull c t b bs er) e ->
   c = oc o /\ t1 <= t /\ b = batch_size h (olen o) /\ Z.of_nat (length bs) <= b.
 Proof.
   intros Hh (Holen & Hodel & Hj2 & Hj3). pose proof (batch_nonneg h (olen o) Hh Holen) as Hbatch.
   unfold read_step. set (batch := batch_size h (olen o)) in *.
   destruct (lim_phase (htotal h) Total (wtotal w) t1 batch) as [[stT r1] e1] eqn:E1.
-  assert (N1 : ~ In (EPull c t b bs) e1).
+  assert (N1 : ~ In (EPull c t b bs er) e1).
   { intro Hin. destruct (lim_phase_events _ _ _ _ _ _ _ _ _ E1 Hin) as [[i [j Hx]]|[i [t' [n Hx]]]]; discriminate. }
   destruct r1 as [| |d1].
   - intro H; inversion H; subst. intro Hin. apply in_app_or in Hin. destruct Hin as [Hin|[Hin|[]]]; [tauto|discriminate].
   - intro H; inversion H; subst. intro Hin. apply in_app_or in Hin. destruct Hin as [Hin|[Hin|[]]]; [tauto|discriminate].
   - pose proof (lim_phase_nonneg _ _ _ _ _ _ _ _ E1) as Hd1.
     destruct (lim_phase (hlocal h) (Local (oc o)) (wlocal w (oc o)) (t1 + d1 + oj2 o) batch) as [[stL r2] e2] eqn:E2.
-    assert (N2 : ~ In (EPull c t b bs) e2).
+    assert (N2 : ~ In (EPull c t b bs er) e2).
     { intro Hin. destruct (lim_phase_events _ _ _ _ _ _ _ _ _ E2 Hin) as [[i [j Hx]]|[i [t' [n Hx]]]]; discriminate. }
     destruct r2 as [| |d2].
     + intro H; inversion H; subst. intro Hin. apply in_app_or in Hin. destruct Hin as [Hin|Hin]; [tauto|].
@@ -562,21 +562,21 @@ Proof.
       pose proof (firstn_len_le (clip (oavail o) 0 (zmin batch (Z.of_nat (length rest)))) rest (proj1 Hk)). lia.
 Qed.
 
-Lemma fold_pull h ss : handler_ok h -> forall ops acc c t b bs, Forall op_ok ops ->
-  In (EPull c t b bs) (snd (fold_left (sched_step h ss) ops acc)) ->
-  In (EPull c t b bs) (snd acc) \/
+Lemma fold_pull h ss : handler_ok h -> forall ops acc c t b bs er, Forall op_ok ops ->
+  In (EPull c t b bs er) (snd (fold_left (sched_step h ss) ops acc)) ->
+  In (EPull c t b bs er) (snd acc) \/
   exists o s rdy, In o ops /\ c = oc o /\ nth_error ss c = Some s /\ ready h s = Some rdy /\
                   rdy + odelay o <= t /\ b = batch_size h (olen o) /\ Z.of_nat (length bs) <= b.
 Proof.
-  intro Hh. induction ops as [|o ops IH]; intros acc c t b bs Hops Hin; cbn [fold_left] in Hin; [left; exact Hin|].
+  intro Hh. induction ops as [|o ops IH]; intros acc c t b bs er Hops Hin; cbn [fold_left] in Hin; [left; exact Hin|].
   inversion Hops as [|? ? Ho Hops']; subst.
-  destruct (IH _ _ _ _ _ Hops' Hin) as [Hacc|(o' & s & rdy & Hio & Hrest)].
+  destruct (IH _ _ _ _ _ _ Hops' Hin) as [Hacc|(o' & s & rdy & Hio & Hrest)].
   - unfold sched_step in Hacc.
     destruct (nth_error ss (oc o)) as [s|] eqn:Es; [|left; exact Hacc].
     destruct (ready h s) as [rdy|] eqn:Er; [|left; exact Hacc].
     destruct (read_step h (rdy + odelay o) (fst acc) o) as [w' e] eqn:Ers. cbn [snd] in Hacc.
     apply in_app_or in Hacc. destruct Hacc as [Hacc|Hacc]; [left; exact Hacc|right].
-    destruct (read_step_pull _ _ _ _ _ _ _ _ _ _ Hh Ho Ers Hacc) as (-> & Ht & Hb & Hl).
+    destruct (read_step_pull _ _ _ _ _ _ _ _ _ _ _ Hh Ho Ers Hacc) as (-> & Ht & Hb & Hl).
     exists o, s, rdy. repeat split; auto. left; reflexivity.
   - right. exists o', s, rdy. split; [right; exact Hio|exact Hrest].
 Qed.
@@ -590,26 +590,26 @@ Qed.
 
 (* Handle: no byte is pulled from a connection before its latency has passed; connections
    cancelled during the wait are never read; every inner Read is for at most batch bytes *)
-Lemma first_read_after_latency_gen h ss ops c t b bs :
+Lemma first_read_after_latency_gen h ss ops c t b bs er :
   handler_ok h -> Forall op_ok ops -> Forall session_ok ss ->
-  In (EPull c t b bs) (snd (run h ss ops)) ->
+  In (EPull c t b bs er) (snd (run h ss ops)) ->
   exists s, nth_error ss c = Some s /\ (0 < hlatency h -> scancel s = false) /\
             sstart s + Z.max 0 (hlatency h) <= t.
 Proof.
   intros Hh Hops Hss Hin. unfold run in Hin.
-  destruct (fold_pull h ss Hh ops _ _ _ _ _ Hops Hin) as [[]|(o & s & rdy & Hio & -> & Hs & Hr & Ht & _)].
+  destruct (fold_pull h ss Hh ops _ _ _ _ _ _ Hops Hin) as [[]|(o & s & rdy & Hio & -> & Hs & Hr & Ht & _)].
   exists s. split; [exact Hs|]. split.
   - intro Hl. unfold ready in Hr. destruct (Z.ltb_spec 0 (hlatency h)) as [Hl'|Hl']; [|lia]. destruct (scancel s); [discriminate|reflexivity].
   - assert (session_ok s) as Hsok by (eapply Forall_forall; [exact Hss|eapply nth_error_In; eauto]).
     pose proof (ready_after h s rdy Hsok Hr). assert (0 <= odelay o) by (eapply Forall_forall in Hops; [apply Hops|exact Hio]). lia.
 Qed.
 
-Lemma read_within_batch_gen h ss ops c t b bs :
-  handler_ok h -> Forall op_ok ops -> In (EPull c t b bs) (snd (run h ss ops)) ->
+Lemma read_within_batch_gen h ss ops c t b bs er :
+  handler_ok h -> Forall op_ok ops -> In (EPull c t b bs er) (snd (run h ss ops)) ->
   Z.of_nat (length bs) <= b /\ (forall L, htotal h = Some L -> b <= lburst L) /\ (forall L, hlocal h = Some L -> b <= lburst L).
 Proof.
   intros Hh Hops Hin. unfold run in Hin.
-  destruct (fold_pull h ss Hh ops _ _ _ _ _ Hops Hin) as [[]|(o & s & rdy & Hio & -> & Hs & Hr & Ht & -> & Hl)].
+  destruct (fold_pull h ss Hh ops _ _ _ _ _ _ Hops Hin) as [[]|(o & s & rdy & Hio & -> & Hs & Hr & Ht & -> & Hl)].
   split; [exact Hl|]. pose proof (batch_le h (olen o)) as (_ & A & B). split; assumption.
 Qed.
 
@@ -724,10 +724,10 @@ Proof.
   intros o s rdy Hin Hs Hr _. eapply Hfrom; eauto.
 Qed.
 
-Lemma first_read_after_latency cfg h ss ops c t b bs :
+Lemma first_read_after_latency cfg h ss ops c t b bs er :
   0 < rq cfg -> 0 < trq cfg -> provision cfg = Some h ->
   Forall op_ok ops -> Forall session_ok ss ->
-  In (EPull c t b bs) (snd (run h ss ops)) ->
+  In (EPull c t b bs er) (snd (run h ss ops)) ->
   exists s, nth_error ss c = Some s /\ (0 < latency cfg -> scancel s = false) /\
             sstart s + Z.max 0 (latency cfg) <= t.
 Proof.
@@ -735,9 +735,9 @@ Proof.
   eapply first_read_after_latency_gen; eauto.
 Qed.
 
-Lemma read_within_batch cfg h ss ops c t b bs :
+Lemma read_within_batch cfg h ss ops c t b bs er :
   0 < rq cfg -> 0 < trq cfg -> provision cfg = Some h -> Forall op_ok ops ->
-  In (EPull c t b bs) (snd (run h ss ops)) ->
+  In (EPull c t b bs er) (snd (run h ss ops)) ->
   Z.of_nat (length bs) <= b /\ (forall L, htotal h = Some L -> b <= lburst L) /\ (forall L, hlocal h = Some L -> b <= lburst L).
 Proof.
   intros Hrq Htq Hprov Hops Hin. destruct (provision_ok cfg h Hrq Htq Hprov) as [Hh _].
